@@ -236,5 +236,5 @@ var _ = kit.Register(kit.Prop[Case]{
 	Name: "SnapshotRevert",
 	Rule: "histories of up to ~75 operations on one StateDB over 6 accounts x 3 storage slots and 4 validators: account operations (balance, nonce, code, storage, suicide, re-creation, logs, refund, preimages, touch), validator operations replaying the staking callers (create, update, deposit, withdraw, status, delegation add/sub, rewards, settle, expel, recover, withdraw-queue removal), Snapshot, RevertToSnapshot of ANY live id, Finalise(true)/IntermediateRoot(true) as transaction boundaries, Commit with and without reopening; at every Snapshot Obs (all getters + the 3 roots and the address index of IntermediateRoot on a Copy) is recorded and must be equal after the revert; at the end the state and the roots of IntermediateRoot on the subject itself must equal those of the same history executed without snapshots and without the undone operations; non-trivial = reverts a non-innermost snapshot, or reverts in a transaction that is not the first of the state object, or the revert undoes a validator-journal entry; distinct = FNV-64 of the case JSON",
 	Gen:  genCase, Run: runCase,
-	Quick: 2500, Thorough: 40000, Chunk: 500, MinNonTrivialPct: 35,
+	Quick: 4000, Thorough: 25000, Chunk: 500, MinNonTrivialPct: 35,
 })
